@@ -353,8 +353,10 @@ def carried_factor(idx: ProgramIndex, rep: Report, M):
                         t = st.targets[0]
                         if isinstance(t, ast.Name):
                             env[t.id] = st.value
-                            if isinstance(st.value, ast.Call) and src(st.value.func) in ("%s.__class__" % sn, "MultivariateNormal", "type(%s)" % sn, cls.name):
-                                cv = _ctor_args(st.value)[1]
+                            from ..symbolic import expand_hook
+                            stv = expand_hook(cls, st.value) if sn == "self" else st.value
+                            if isinstance(stv, ast.Call) and src(stv.func) in ("%s.__class__" % sn, "MultivariateNormal", "type(%s)" % sn, cls.name):
+                                cv = _ctor_args(stv)[1]
                                 if cv is not None:
                                     covs[t.id] = cv
                         elif isinstance(t, ast.Attribute) and isinstance(t.value, ast.Name) and t.value.id != sn:
